@@ -154,6 +154,59 @@ def derive_alphabet(pattern):
     return chars
 
 
+def required_runs(pattern):
+    """counted repeats of a pattern (\\d{8}, [a-z0-9]{32}): a run of exactly that many accepted characters - what an input needs at
+    that place before the rest of the pattern is reached at all"""
+    try:
+        import re._parser as sre_parse
+    except ImportError:  # pragma: no cover
+        import sre_parse
+    runs = []
+
+    def walk(items):
+        for op, arg in items:
+            name = str(op)
+            if name in ("MAX_REPEAT", "MIN_REPEAT", "POSSESSIVE_REPEAT"):
+                lo, hi, sub = arg
+                if 2 <= lo <= 64:
+                    member = derive_alphabet_of(sub)
+                    if member and member * lo not in runs:
+                        runs.append(member * lo)
+                walk(sub)
+            elif name == "BRANCH":
+                for branch in arg[1]:
+                    walk(branch)
+            elif name == "SUBPATTERN":
+                walk(arg[3])
+            elif name in ("ASSERT", "ASSERT_NOT"):
+                walk(arg[1])
+    try:
+        walk(sre_parse.parse(pattern))
+    except Exception:  # noqa
+        pass
+    return runs[:3]
+
+
+def derive_alphabet_of(items):
+    for op, arg in items:
+        name = str(op)
+        if name == "LITERAL":
+            return chr(arg)
+        if name == "IN":
+            for a in arg:
+                if str(a[0]) == "LITERAL":
+                    return chr(a[1])
+                if str(a[0]) == "RANGE":
+                    return chr(a[1][0])
+                if str(a[0]) == "CATEGORY":
+                    return "1" if "DIGIT" in str(a[1]) else "a"
+        if name == "CATEGORY":
+            return "1" if "DIGIT" in str(arg) else "a"
+        if name == "ANY":
+            return "x"
+    return None
+
+
 def families(alphabet, max_affix, max_pump):
     affixes = [""] + ["".join(t) for n in range(1, max_affix + 1) for t in itertools.product(alphabet, repeat=n)]
     pumps = ["".join(t) for n in range(1, max_pump + 1) for t in itertools.product(alphabet, repeat=n)]
@@ -700,13 +753,27 @@ def template_case(case, eps=None):
     return {"nontrivial": refused > 0, "labels": ["refused" if refused else "accepted", "names:%d" % min(len(names) // 10 * 10, 40)], "tried": refused}
 
 
-def chosen(alphabet, max_affix, max_pump, count, seed_parts):
+def run_families(alphabet, runs):
+    """the part of a pattern behind a counted repeat is reached only by inputs that carry the run: run + pump^n + suffix"""
+    out = []
+    pumps = ["".join(t) for n in (1, 2) for t in itertools.product(alphabet, repeat=n)]
+    for run in runs:
+        for pump in pumps:
+            for suffix in ("!", "\n", "", "-x", pump[:1] + "!"):
+                for lead in ("", "a-"):
+                    out.append((lead + run, pump, suffix))
+    return out
+
+
+def chosen(alphabet, max_affix, max_pump, count, seed_parts, runs=()):
     """count=None: every family (deterministically shuffled); otherwise a seeded sample drawn without materialising the space"""
     rnd = random.Random(derive_seed(*seed_parts))
     if count is None:
-        fams = list(families(alphabet, max_affix, max_pump))
+        fams = list(families(alphabet, max_affix, max_pump)) + run_families(alphabet, runs)
         rnd.shuffle(fams)
         return fams
+    if runs:
+        return chosen(alphabet, max_affix, max_pump, count, seed_parts) + run_families(alphabet, runs)
     affixes = [""] + ["".join(t) for n in range(1, max_affix + 1) for t in itertools.product(alphabet, repeat=n)]
     pumps = ["".join(t) for n in range(1, max_pump + 1) for t in itertools.product(alphabet, repeat=n)]
     out, seen = [], set()
@@ -733,10 +800,11 @@ def run(ctx):
     work = []
     for p in pats:
         alphabet = derive_alphabet(p["pattern"])
+        runs = required_runs(p["pattern"])
         if ctx.thorough:
-            fams = chosen(alphabet, 1, 3, None, (ctx.seed, p["pattern"]))
+            fams = chosen(alphabet, 1, 3, None, (ctx.seed, p["pattern"]), runs)
         else:
-            fams = chosen(alphabet, 2, 3, 240, (ctx.seed, p["pattern"]))
+            fams = chosen(alphabet, 2, 3, 240, (ctx.seed, p["pattern"]), runs)
         for i, fam in enumerate(fams):
             work.append((p, fam))
     slow = {}
